@@ -7,6 +7,7 @@ import (
 	"fmt"
 	"os"
 	"path/filepath"
+	"runtime"
 	"sort"
 	"strconv"
 	"strings"
@@ -82,12 +83,22 @@ func TestMain(m *testing.M) {
 	kfs.Set("stderrthreshold", "FATAL")
 	klog.SetOutput(discard{})
 	// watchdog in real time, outside any bubble
-	limit := time.Duration(envInt("VERIF_RUN_TIMEOUT_S", 120)) * time.Second
+	defLimit := 120
+	if os.Getenv("VERIF_PROP") == "C20" {
+		defLimit = 45 // a wedged node is this property's business: do not wait long for it
+	}
+	limit := time.Duration(envInt("VERIF_RUN_TIMEOUT_S", defLimit)) * time.Second
 	go func() {
 		for {
 			time.Sleep(2 * time.Second)
 			st := runStarted.Load()
 			if st != 0 && time.Since(time.Unix(0, st)) > limit {
+				// is a goroutine of node code waiting for a lock that nobody will release? (a mutex wait is
+				// not a durable block for the bubble, so the whole run stands still with it)
+				if where := lockWaitInNodeCode(); where != "" {
+					fmt.Fprintf(os.Stderr, "WATCHDOG-WEDGE: run exceeded %s with node code waiting for a lock: %s\n", limit, where)
+					os.Exit(3)
+				}
 				fmt.Fprintf(os.Stderr, "WATCHDOG: run exceeded %s (harness or node blocked/spinning); infrastructure exit\n", limit)
 				os.Exit(2)
 			}
@@ -98,6 +109,37 @@ func TestMain(m *testing.M) {
 		world.RealMetrics = kbprom.NewMetrics()
 	}
 	os.Exit(m.Run())
+}
+
+// lockWaitInNodeCode looks through all goroutine stacks for one that waits for a sync lock with a
+// frame of the repository on its stack; it returns "<wait reason> at <innermost repository frame>".
+func lockWaitInNodeCode() string {
+	buf := make([]byte, 8<<20)
+	buf = buf[:runtime.Stack(buf, true)]
+	for _, g := range strings.Split(string(buf), "\n\n") {
+		lines := strings.Split(g, "\n")
+		if len(lines) < 2 || !strings.HasPrefix(lines[0], "goroutine ") {
+			continue
+		}
+		hdr := lines[0]
+		if !(strings.Contains(hdr, "[sync.Mutex.Lock") || strings.Contains(hdr, "[sync.RWMutex.RLock") || strings.Contains(hdr, "[sync.RWMutex.Lock")) {
+			continue
+		}
+		for _, l := range lines[1:] {
+			if strings.Contains(l, "github.com/kubewharf/kubebrain/") && !strings.Contains(l, "/verifhook") && strings.Contains(l, "(") && !strings.HasPrefix(l, "\t") {
+				fn := l
+				if i := strings.LastIndex(fn, "("); i > 0 {
+					fn = fn[:i]
+				}
+				reason := hdr[strings.Index(hdr, "[")+1:]
+				if i := strings.IndexAny(reason, ",]"); i > 0 {
+					reason = reason[:i]
+				}
+				return reason + " at " + strings.TrimPrefix(fn, "github.com/kubewharf/kubebrain/")
+			}
+		}
+	}
+	return ""
 }
 
 type discard struct{}
